@@ -777,11 +777,22 @@ class Discharger:
         if g.name == "data" and g.cls is not None:
             return set(exported(self.ctx, g.cls))
         keysets: List[Set[str]] = []
+        from .normalise import normalised
+
+        g = normalised(self.ctx, g, "tailcalls")  # a shared builder the function ends in is read with its arguments
         for p in function_paths(self.ctx.cfg(g)):
             if p.raises or p.ret is None:
                 continue
             r = resolve_local(p.ret, p.env)
             ks: Optional[Set[str]] = None
+            if isinstance(r, ast.DictComp) and len(r.generators) == 1 and not r.generators[0].ifs and isinstance(r.generators[0].target, ast.Tuple) and len(r.generators[0].target.elts) == 2 and src(r.key) == src(r.generators[0].target.elts[0]):
+                # {k: f(v) for k, v in zip((<constant keys>), <regex tuple>)}: one key per group, when there are enough groups
+                it = r.generators[0].iter
+                if isinstance(it, ast.Call) and src(it.func) == "zip" and len(it.args) == 2 and isinstance(it.args[1], ast.Name):
+                    kv = self.ctx.folder.fold(it.args[0], g.module)
+                    ng = self.regex_groups_of(g, it.args[1].id)
+                    if isinstance(kv, (tuple, list)) and all(isinstance(x, str) for x in kv) and ng is not None and ng >= len(kv):
+                        ks = set(kv)
             if isinstance(r, ast.Call) and src(r.func) == "dict":
                 ks = {k.arg for k in r.keywords if k.arg}
             elif isinstance(r, ast.Dict):
